@@ -31,7 +31,8 @@ from skv.term import S
 LEVEL = "proof"
 EXPLANATION = ("model forms, projection wiring and Galerkin consistency on small meshes with symbolic geometry and symbolic polynomial data proved from the real code; "
                "the end-to-end statement on arbitrary meshes is a composition of the contracts of C01-C05/C07 (paper) and is observed by a sharp bounded stand-in")
-ASSUMPTIONS = ["uniqueness of the discrete solution (SPD free block): paper lemma", "composition of the stage contracts C01, C02, C03, C04, C05, C07 on paper",
+ASSUMPTIONS = ["CONSISTENCY: quadrature tables are doubles, so the identity holds up to 1e-11 of the coefficient mass before cancellation (C08 proves the rules exact to 1e-13)",
+               "uniqueness of the discrete solution (SPD free block): paper lemma", "composition of the stage contracts C01, C02, C03, C04, C05, C07 on paper",
                "sparse direct solver accurate to rounding error (stand-in tolerance 2e-9)", "exact real arithmetic for floats in the symbolic runs",
                "CONSISTENCY is proved for fixed small topologies (geometry and data unbounded)"]
 TRUSTED = ["NumPy object arrays executing the real code", "NumPy model skv/sarr.py (isin as an uninterpreted membership predicate)", "exact normal forms skv/poly.py"]
@@ -264,6 +265,115 @@ def project_wiring(ctx):
 UNITS["project/wiring"] = project_wiring
 
 
+def _abs_poly(q):
+    return poly.Poly({k: abs(v) for k, v in q.c.items()})
+
+
+def consistency_unit(kind, elabel, deg, pnum, t):
+    """Galerkin consistency on a small mesh with SYMBOLIC vertex coordinates and a SYMBOLIC polynomial of the element's degree: every free row of the system
+    assembled by the real CellBasis / BilinearForm / LinearForm code is satisfied by the nodal values of the polynomial"""
+    def run(ctx):
+        import logging
+        import skfem as fem
+        from props import C03
+        from skfem.element import DiscreteField
+        from skfem.mapping import MappingAffine
+        from skfem.models.poisson import laplace, mass
+        logging.disable(logging.WARNING)
+        if ctx.tier == "quick" and len(t) > 3:
+            ctx.notes.append("consistency/%s/%s (%d cells, %d coordinate symbols) runs in the thorough tier only (90 s)" % (kind, elabel, len(t), np.size(pnum)))
+            return
+        m = C03.build_mesh(kind, np.array(pnum, dtype=float), np.array(t, dtype=np.int64).T)
+        e = getattr(fem, elabel)()
+        d = m.p.shape[0]
+        sp = pmode.sym_array("p", m.p.shape)
+        exps = [ex for ex in itertools.product(range(deg + 1), repeat=d) if sum(ex) <= deg]
+        cs = {ex: tm.sreal("c" + "".join(map(str, ex))) for ex in exps}
+
+        def mono(x, ex):
+            r = 1
+            for i, k in enumerate(ex):
+                for _ in range(k):
+                    r = r * x[i]
+            return r
+
+        def u(x):
+            return sum(cs[ex] * mono(x, ex) for ex in exps) + x[0] * 0
+
+        def lap(x):
+            tot = x[0] * 0
+            for ex in exps:
+                for i in range(d):
+                    if ex[i] >= 2:
+                        k = list(ex)
+                        k[i] -= 2
+                        tot = tot + cs[ex] * (ex[i] * (ex[i] - 1)) * mono(x, tuple(k))
+            return tot
+        fn = ctx.function(fem.BilinearForm._assemble, via="%s on a %d-cell %s mesh" % (elabel, m.t.shape[1], kind))
+        ctx.function(fem.LinearForm._assemble)
+        ctx.function(fem.CellBasis.__init__)
+        with pmode.symbolic_numpy():
+            mp = MappingAffine(C03.Stub(m, sp))
+            basis = fem.CellBasis(m, e, mapping=mp)
+            basis.mesh_parameters = lambda: DiscreteField(np.zeros((1, 1), dtype=object))
+            A = laplace.coo_data(basis)
+            M = mass.coo_data(basis)
+            b0 = fem.LinearForm(lambda v, w: -lap(w.x) * v).coo_data(basis)
+            b1 = fem.LinearForm(lambda v, w: u(w.x) * v).coo_data(basis)
+            Fd = mp.F(C03.exact(np.asarray(e.doflocs.T, dtype=float)))
+        N = basis.N
+        dl = np.empty((d, N), dtype=object)
+        for k in range(m.t.shape[1]):
+            for jl in range(basis.Nbfun):
+                for a in range(d):
+                    dl[a, basis.element_dofs[jl, k]] = Fd[a, k, jl]
+        uj = [poly.term_to_rat(tm.lift(u([dl[a, j] for a in range(d)]))) for j in range(N)]
+        env = {tm.lift(sp[ix]): tm.const(Fraction(float(m.p[ix])), tm.REAL) for ix in np.ndindex(*m.p.shape)}
+        free = [int(i) for i in basis.complement_dofs(basis.get_dofs())]
+        ctx.fact("consistency/%s/%s/free-rows" % (kind, elabel), fn, len(free) > 0, "the patch has no free DOF: nothing would be examined", backend="enumeration")
+        for problem, mats, loads in (("poisson", [A], [b0]), ("reaction-diffusion", [A, M], [b0, b1])):
+            for sgn in (1, -1):
+                for i in free:
+                    groups = {}
+
+                    def add(r, neg=False):
+                        n = r.n if not neg else poly.Poly() - r.n
+                        groups[r.d] = groups[r.d] + n if r.d in groups else n
+                    for cd in mats:
+                        for q in range(cd.indices.shape[1]):
+                            if cd.indices[0, q] == i:
+                                add(C03.RA_(cd.data[q], env, sgn) * uj[int(cd.indices[1, q])])
+                    for cd in loads:
+                        for q in range(cd.indices.shape[1]):
+                            if cd.indices[0, q] == i:
+                                add(C03.RA_(cd.data[q], env, sgn), neg=True)
+                    ds = list(groups)
+                    num, scale = poly.Poly(), poly.Poly()
+                    for g in ds:
+                        others, aothers = poly.Poly.const(1), poly.Poly.const(1)
+                        for h in ds:
+                            if h is not g:
+                                others, aothers = others * h, aothers * _abs_poly(h)
+                        num = num + groups[g] * others
+                        scale = scale + _abs_poly(groups[g]) * aothers
+                    sn, ss = sum(abs(v) for v in num.c.values()), sum(abs(v) for v in scale.c.values())
+                    ok = sn <= Fraction(1, 10 ** 11) * ss
+                    ctx.fact("consistency/%s/%s/%s/orientation%+d/row%d" % (kind, elabel, problem, sgn, i), fn, bool(ok),
+                             "residual numerator has coefficient mass %.3e against %.3e before cancellation" % (float(sn), float(ss)),
+                             clause="(A u_I)[i] == b[i] for the nodal values u_I of ANY polynomial of degree %d, ANY vertex coordinates (cells of the instance's orientation "
+                                    "pattern / its mirror image): coefficient mass of the residual numerator <= 1e-11 of the mass before cancellation (quadrature tables are "
+                                    "doubles)" % deg, backend="ground-rational-tol", replay=dict(kind="galerkin"))
+    return run
+
+
+for _k, _e, _deg, _p, _t in (
+        ("line", "ElementLineP1", 1, [[0., 1., 2.5, 4.]], [[0, 1], [1, 2], [2, 3]]),
+        ("line", "ElementLineP2", 2, [[0., 1., 2.5]], [[0, 1], [1, 2]]),
+        ("tri", "ElementTriP1", 1, [[0., 1., 1.25, -.25, .5], [0., -.125, 1., .875, .375]], [[0, 1, 4], [1, 2, 4], [2, 3, 4], [3, 0, 4]]),
+        ("tri", "ElementTriP2", 2, [[0., 1., .375, .875], [0., .25, 1., -.75]], [[0, 1, 2], [0, 1, 3]])):
+    UNITS["consistency/%s/%s" % (_k, _e)] = consistency_unit(_k, _e, _deg, _p, _t)
+
+
 def standin_galerkin(ctx):
     import time
     from skv import core
@@ -274,4 +384,4 @@ def standin_galerkin(ctx):
 
 
 UNITS["standin/galerkin"] = standin_galerkin
-HEAVY_FIRST = ["standin/galerkin"]
+HEAVY_FIRST = ["consistency/tri/ElementTriP1", "standin/galerkin"]
